@@ -510,6 +510,18 @@ Section Parser.
         | _ => Some (t, ts) end
     end.
 
+  (** after the keyword match: the suffix loop — skipped when a closing [>] is owed to the parent
+      (the type was closed by the first half of a [>>] token) *)
+  Definition wrap_square (r : pres) : pres :=
+    match r with
+    | POk t tr r' =>
+        if tr then POk t tr r'
+        else match q_square (S (length r')) t r' with
+             | Some (t', r'') => POk t' false r''
+             | None => PErr end
+    | PErr => PErr
+    end.
+
   Definition run_leaf (a : palt) (ts : list tok) : pres :=
     match a_fam a with
     | PNullary => POk (DNullary (a_ctor a)) false ts
@@ -559,12 +571,14 @@ Section Parser.
     | None => PErr
     end.
 
-  Fixpoint parse_helper (fuel : nat) (ts : list tok) {struct fuel} : pres :=
+  (** [parse_data_type_helper] up to (not including) its suffix loop; every recursive use is the
+      whole helper, [wrap_square (parse_main ..)] *)
+  Fixpoint parse_main (fuel : nat) (ts : list tok) {struct fuel} : pres :=
     match fuel with
     | O => PErr
     | S f =>
         let top (ts : list tok) : pres :=   (* parse_data_type *)
-          match parse_helper f ts with
+          match wrap_square (parse_main f ts) with
           | POk t false r => POk t false r
           | _ => PErr end in
         let sub (mk : dt -> dt) (ts : list tok) : pres :=   (* parse_sub_type *)
@@ -601,7 +615,7 @@ Section Parser.
                     else
                       match r with
                       | TLt :: r1 =>
-                          match parse_helper f r1 with
+                          match wrap_square (parse_main f r1) with
                           | POk t tr r2 =>
                               match q_close_angle tr r2 with
                               | Some (tr', r3) => POk (DArrayAngle t) tr' r3
@@ -664,12 +678,7 @@ Section Parser.
           | TQWord _ _ :: _ => q_custom ts
           | _ => PErr
           end in
-        match main with
-        | POk t tr r =>
-            match q_square (S (length r)) t r with
-            | Some (t', r') => POk t' tr r'
-            | None => PErr end
-        | PErr => PErr end
+        main
     end
   (** name type {, name type}: DuckDB struct, UNION; each type through [parse_data_type] *)
   with named_fields (fuel : nat) (ts : list tok) {struct fuel} : option (list (ident * dt) * list tok) :=
@@ -680,7 +689,7 @@ Section Parser.
         | t :: r =>
             match to_ident t with
             | Some i =>
-                match parse_helper f r with
+                match wrap_square (parse_main f r) with
                 | POk ty false (TComma :: r1) =>
                     match named_fields f r1 with
                     | Some (l, r2) => Some ((i, ty) :: l, r2)
@@ -691,7 +700,7 @@ Section Parser.
         | [] => None end
     end
   (** BigQuery struct fields: [parse_struct_field_def] separated by commas; a field that consumed
-      [>>] must be the last one *)
+      [>>] ends the struct (what follows belongs to the enclosing type) *)
   with angle_fields (fuel : nat) (ts : list tok) {struct fuel} : option (list (option ident * dt) * bool * list tok) :=
     match fuel with
     | O => None
@@ -700,13 +709,13 @@ Section Parser.
           match ts with
           | a :: ((b :: _) as r) => if is_word a && is_word b then (to_ident a, r) else (None, ts)
           | _ => (None, ts) end in
-        match parse_helper f ts1 with
-        | POk ty tr (TComma :: r1) =>
-            if tr then None
-            else match angle_fields f r1 with
-                 | Some (l, tr', r2) => Some ((nm, ty) :: l, tr', r2)
-                 | None => None end
-        | POk ty tr r1 => Some ([(nm, ty)], tr, r1)
+        match wrap_square (parse_main f ts1) with
+        | POk ty true r1 => Some ([(nm, ty)], true, r1)    (* [>>] also closed this struct: stop *)
+        | POk ty false (TComma :: r1) =>
+            match angle_fields f r1 with
+            | Some (l, tr', r2) => Some ((nm, ty) :: l, tr', r2)
+            | None => None end
+        | POk ty false r1 => Some ([(nm, ty)], false, r1)
         | PErr => None end
     end
   (** ClickHouse tuple fields: the trailing-bracket flag is dropped *)
@@ -718,7 +727,7 @@ Section Parser.
           match ts with
           | a :: ((b :: _) as r) => if is_word a && is_word b then (to_ident a, r) else (None, ts)
           | _ => (None, ts) end in
-        match parse_helper f ts1 with
+        match wrap_square (parse_main f ts1) with
         | POk ty _ (TComma :: r1) =>
             match tuple_fields f r1 with
             | Some (l, r2) => Some ((nm, ty) :: l, r2)
@@ -736,7 +745,7 @@ Section Parser.
         | t :: r =>
             match to_ident t with
             | Some i =>
-                match parse_helper f r with
+                match wrap_square (parse_main f r) with
                 | POk ty false (TComma :: r1) =>
                     match nested_cols f r1 with
                     | Some (l, r2) => Some ((i, ty) :: l, r2)
@@ -746,6 +755,8 @@ Section Parser.
             | None => None end
         | [] => None end
     end.
+
+  Definition parse_helper (fuel : nat) (ts : list tok) : pres := wrap_square (parse_main fuel ts).
 
   (** [Parser::parse_data_type] on a token list, with enough fuel for any input *)
   Definition parse_dt (ts : list tok) : pres :=
@@ -877,13 +888,17 @@ Definition bad_parse_rows (T : tables) : list str :=
                      end) (t_parse T).
 
 (** ** Follow set: what may come after a complete type without being absorbed by the type grammar *)
-Definition follow_ok (T : tables) (rest : list tok) : bool :=
+(** after the keyword part of a type (the suffix loop may still take a [[]) *)
+Definition follow_main (T : tables) (rest : list tok) : bool :=
   match rest with
   | [] => true
-  | TLParen :: _ | TLBracket :: _ | TPeriod :: _ => false
+  | TLParen :: _ | TPeriod :: _ => false
   | TWord w :: _ => negb (mem_str (ascii_upper w) (absorb_kws T))
   | _ => true
   end.
+
+Definition follow_ok (T : tables) (rest : list tok) : bool :=
+  follow_main T rest && match rest with TLBracket :: _ => false | _ => true end.
 
 (** ... at the end of a whole type: additionally no [>] / [>>] (they would be glued to, or taken for,
     the type's own closing brackets) *)
@@ -931,7 +946,8 @@ Fixpoint trail (t : dt) : nat :=
 
 Fixpoint depth (t : dt) : nat :=
   match t with
-  | DArrayAngle u | DArrayParen u | DNullable u | DLowCard u | DArraySquare u _ => S (depth u)
+  | DArrayAngle u | DArrayParen u | DNullable u | DLowCard u => S (depth u)
+  | DArraySquare u _ => depth u      (* a suffix is taken by the same helper call *)
   | DMap k v => S (Nat.max (depth k) (depth v))
   | _ => 0
   end.
